@@ -840,6 +840,8 @@ func checkC16(p *Prog, r *Report) {
 	}
 	r.Floor("message-fields", nFields, 59)
 	checkDidDocumentValid(p, r, kp)
+	// nothing outside these limits is stored: the document a DID handler stores is the message's (validated) document itself
+	didRules(p, r, "C16", func(tag string) bool { return tag == "proof" })
 	checkAddressConfig(p, r, kp)
 	// D3: PNFT handlers re-run ValidateBasic before the keeper call
 	for _, fn := range sortedFuncs(p.ServerHandlers("MsgServer")["x/pnft"]) {
